@@ -23,12 +23,12 @@ CHECKS = {
    note="the parser is not modelled, so 'same AST' is observed, not proved; comments are compared after trimming blanks at both ends",
    technique="Coq proof (printer tokens re-lex; comment scheduler emits each group once) + re-parse / comment / fixed-point correspondence on laid-out programs and repository files"),
  "C06": dict(category="proof",
-   text="partial until the shape obligations are integrated (then: Coq model of Shape::narrow with its memo and symbol-table updates, of the checker's statement visitor and of the VM's constraint check; proved on the literal grammar that `let x :: c = v` builds iff v conforms to c (same_shape / in_range / equality written from the property text), that a named constraint and a let-bound exemplar are transparent, with refutations for the strict-NULL reading and mixed-type ranges). Decided against the implementation on seeded (constraint, value) pairs: exemplars nested to depth 3 with related values, int/float ranges with boundary values, alternations of 2..4 arms; each pair inline, behind a constraint name, behind a let-bound exemplar and with the value written as a computation (function call, selector, select, arithmetic); verdicts compared with each other, with the specification `conforms`, with the extracted model of checker + VM, and a sample through the ucg binary",
+   text="Coq model of Shape::narrow with its memo and symbol-table updates, of the checker's statement visitor and of the VM's constraint check; proved on the property's grammar and literal values that `let x :: c = v` builds iff v conforms to c (same_shape / in_range / equality written from the property text), that a named constraint and a let-bound exemplar are transparent, with refutations for the strict-NULL reading, mixed-type ranges and a clashing constraint name. Computed values and everything outside the literal grammar are decided against the implementation on seeded (constraint, value) pairs: exemplars nested to depth 3 with related values, int/float ranges with boundary values, alternations of 2..4 arms; each pair inline, behind a constraint name, behind a let-bound exemplar and with the value written as a computation (function call, selector, select, arithmetic); verdicts compared with each other, with the specification `conforms`, with the extracted model of checker + VM, and a sample through the ucg binary",
    note="NULL conforms to every exemplar (docs) but not to a range; recursive constraints and a constraint name as one arm of a larger alternation are outside the property's grammar; one listed known finding (exemplars are enforced statically only)",
    technique="Coq proof (narrowing on literal shapes; statement pipeline) + pair-wise correspondence of specification, model and build"),
  "C07": dict(category="proof",
-   text="partial until the shape obligations are integrated (then: Coq theorems that for programs of a first-order fragment whose evaluation under the definitional semantics succeeds, the model of the checker accepts them and the derived shape is inhabited by the value). Decided against the implementation: programs of the C01 generator that evaluate to completion without the checker are given to the checker, which must accept them; comparisons of structurally different tuples and lists; one program per construct the property names (map/filter/reduce over tuples and strings, calls through tuple fields, nested selectors, select defaults, parameter shadowing, copies, modules), also built through the binary",
-   note="'same values' is C01's subject; two listed known findings (list-shape narrowing pinned by the suite; right operand of && / || where the evaluator deviates from the reference)",
+   text="partial: Coq theorems that for programs of a first-order fragment (literals, bound names, casts, ranges, format, tuple/list literals, comparisons, not, arithmetic with a primitive operand, selection by name and index, calls and copies through tuple fields, select with default, filter/map over strings, tuples and candidate sets) whose evaluation under the definitional semantics succeeds, the model of the checker accepts the program, the derived shape is inhabited by the value and the symbol table is untouched; direct calls, reduce, map over lists and direct copies are not proved. The property as stated is decided against the implementation: programs of the C01 generator that evaluate to completion without the checker are given to the checker, which must accept them; comparisons of structurally different tuples and lists; one program per construct the property names (map/filter/reduce over tuples and strings, calls through tuple fields, nested selectors, select defaults, parameter shadowing, copies, modules), also built through the binary",
+   note="'same values' is C01's subject; four listed known findings (list-shape narrowing pinned by the suite; right operand of && / ||; subset-merging of select arms; parameter narrowing by a branch a call does not run), each with a Coq witness and recognised by the extracted classifier known_c07",
    technique="Coq proof (soundness of shape derivation w.r.t. evaluation on a fragment) + evaluate-vs-check correspondence on generated programs"),
  "C08": dict(category="proof",
    text="Coq theorems over a model of the env/flags/exec converters and of POSIX word splitting and quote removal: for ALL byte strings a single-quoted value reads back as exactly one unaltered word and a double-quoted assignment value as the original string with nothing expanded; env yields every scalar field once and in order; flags and exec scripts read back as their specification. The escape chains are regenerated from src/convert/mod.rs on every run and proved (finite obligation over all 256 bytes) to compute the character-wise escapers the theorems use. Tied to the real converters byte-for-byte on all strings up to length 4 (quick) / 5 (thorough) over the quoting alphabet in six placements, and the outputs are read back by dash and bash",
